@@ -373,7 +373,11 @@ def cas1(ctx, c):
                           "%s writes part of the fixed 15-byte name-file payload with a loop over %s: the number of bytes varies with the content (a non-ASCII character encodes to several bytes), "
                           "so the payload no longer matches the length byte" % (name, varying[0][1]), where)
                 continue
-            unknown = [x for x in _walk_items(flat) if x[0] == "other" and re.search(r"self\.buffer|%s" % "|".join(re.escape(a_) for a_ in _acc_vars(methods)), x[1])]
+            # helpers of the class or its bases that write into the buffer and are not among the modelled writers (append_bytes(values) in the container base)
+            helper_names = [mn_ for cn_ in repo.ancestors(CLS) if cn_ in repo.classes for mn_, mf_ in repo.classes[cn_].methods.items()
+                            if mn_ not in methods and any(isinstance(y, ast.Call) and isinstance(y.func, ast.Attribute) and y.func.attr in ("append", "extend", "insert") and U(y.func.value) == "self.buffer"
+                                                          for y in ast.walk(mf_.node))]
+            unknown = [x for x in _walk_items(flat) if x[0] == "other" and re.search(r"self\.buffer|%s" % "|".join([re.escape(a_) for a_ in _acc_vars(methods)] + [r"self\.%s\(" % re.escape(h_) for h_ in helper_names]), x[1])]
             if unknown:
                 c.undecided(site, "writer uses an idiom the extractor does not model: %s" % unknown[0][1][:50], "", where)
                 continue
@@ -941,7 +945,8 @@ def cas1_whole(ctx, c):
     where = repo.loc(af, af.node)
     p_file = [p for p in af.params if p != "self"][0]
     bad, und = None, None
-    workers = tuple(n for n in C.methods if n.startswith("append_"))
+    # the leaf writers are described, every other helper of the class (append_section(...), _append_preamble ...) is interpreted
+    workers = tuple(n for n in C.methods if n in ("append_leader", "append_blank", "append_header", "append_data_blocks", "append_eof", "append_name", "append_gap"))
 
     def resolver(name):
         f_ = repo.lookup(C, name)
